@@ -98,6 +98,8 @@ type Options struct {
 	Visited     map[[2]uint64]int8 // state key -> best remaining budget explored (nil = no pruning)
 	Trace       bool
 	StepLimit   int
+	NewestFirst bool // default scheduler prefers the most recently created enabled thread instead of the oldest
+	DelayBound  bool // every non-default scheduling choice costs one deviation (delay bounding), not only preemptions
 	EarlyTimers bool // timers may fire early at the cost of one deviation
 	MaxTicks    int  // cap on periodic timer firings per execution
 }
@@ -353,9 +355,17 @@ func (e *exec) schedule(t *thread) {
 		if curEnabled {
 			en = append(en, t)
 		}
-		for _, o := range e.threads {
-			if o != t && o.isEnabled() {
-				en = append(en, o)
+		if e.opt.NewestFirst {
+			for i := len(e.threads) - 1; i >= 0; i-- {
+				if o := e.threads[i]; o != t && o.isEnabled() {
+					en = append(en, o)
+				}
+			}
+		} else {
+			for _, o := range e.threads {
+				if o != t && o.isEnabled() {
+					en = append(en, o)
+				}
 			}
 		}
 		if len(en) == 0 {
@@ -378,7 +388,7 @@ func (e *exec) schedule(t *thread) {
 		idx := 0
 		nalt := len(en) + e.earlyTimerAlternatives()
 		if nalt > 1 {
-			idx = e.choose(nalt, curEnabled, "sched")
+			idx = e.choose(nalt, curEnabled || e.opt.DelayBound, "sched")
 		}
 		if idx >= len(en) {
 			e.fireTimerEarly(idx - len(en))
@@ -551,12 +561,18 @@ type Stats struct {
 // Explore enumerates all executions of body with at most bound deviations. check is called on every
 // complete (non-pruned) execution and returns false to stop. stop() is polled for time caps.
 func Explore(body func(), bound int, prune bool, check func(*Result) bool, stop func() bool) Stats {
+	return ExploreOpt(body, Options{Bound: bound}, prune, [][]int{nil}, check, stop)
+}
+
+// ExploreOpt is Explore with explicit options and an initial set of prefixes (for sharding a search over processes).
+func ExploreOpt(body func(), base Options, prune bool, roots [][]int, check func(*Result) bool, stop func() bool) Stats {
+	bound := base.Bound
 	st := Stats{Bound: bound, Complete: true, Outcomes: map[string]int{}}
 	var visited map[[2]uint64]int8
 	if prune {
 		visited = map[[2]uint64]int8{}
 	}
-	stack := [][]int{nil}
+	stack := append([][]int{}, roots...)
 	for len(stack) > 0 {
 		if stop != nil && stop() {
 			st.Complete = false
@@ -564,7 +580,13 @@ func Explore(body func(), bound int, prune bool, check func(*Result) bool, stop 
 		}
 		prefix := stack[len(stack)-1]
 		stack = stack[:len(stack)-1]
-		r := Run(Options{Prefix: prefix, Bound: bound, Visited: visited}, body)
+		o := base
+		o.Prefix, o.Visited = prefix, visited
+		t0 := time.Now()
+		r := Run(o, body)
+		if os.Getenv("VSCHED_TIMING") != "" {
+			fmt.Fprintf(os.Stderr, "run: %v status=%s steps=%d points=%d prefix=%d\n", time.Since(t0), r.Status, r.Steps, len(r.Points), len(prefix))
+		}
 		st.Executions++
 		st.Transitions += r.Steps
 		st.States += r.NewStates
